@@ -10,10 +10,12 @@ use actix_codec::{AsyncRead, AsyncWrite, Decoder, Encoder, ReadBuf};
 use bytes::{Buf, BufMut, BytesMut};
 use serde::{Deserialize, Serialize};
 
-pub const KINDS: [io::ErrorKind; 4] = [
+pub const KINDS: [io::ErrorKind; 6] = [
     io::ErrorKind::ConnectionReset,
     io::ErrorKind::BrokenPipe,
     io::ErrorKind::UnexpectedEof,
+    io::ErrorKind::Interrupted,
+    io::ErrorKind::TimedOut,
     io::ErrorKind::Other,
 ];
 
@@ -284,9 +286,15 @@ impl Encoder<Vec<u8>> for LenU8 {
     }
 }
 
+/// items of exactly this size are rejected by the `LenU16` encoder (an encoder may refuse an item)
+pub const REJECTED_LEN: usize = 4242;
+
 impl Encoder<Vec<u8>> for LenU16 {
     type Error = io::Error;
     fn encode(&mut self, item: Vec<u8>, dst: &mut BytesMut) -> Result<(), io::Error> {
+        if item.len() == REJECTED_LEN {
+            return Err(io::Error::new(io::ErrorKind::InvalidInput, "item refused by the encoder"));
+        }
         dst.reserve(2 + item.len());
         dst.put_u16(item.len() as u16);
         dst.put_slice(&item);
